@@ -196,6 +196,41 @@ def run_random(run, seed, count, length):
     return traces, verdicts
 
 
+def minimise(tr, clause, budget=14):
+    """Greedy delta-debugging of a rejected tour: drop chunks of calls (never the Setup) as long as
+    TLC still reports `clause` for the re-executed history.  Returns the shortened label list."""
+    meta = tr["meta"]
+    if meta["campaign"] == "random":
+        return None
+    labs = list(meta["labels"])
+    init, adj, descs, _ = graph(meta["campaign"])
+    chunk = max(1, (len(labs) - 1) // 2)
+    runs = 0
+    while chunk >= 1 and runs < budget:
+        i = 1
+        shrunk = False
+        while i < len(labs) and runs < budget:
+            cand = labs[:i] + labs[i + chunk:]
+            if len(cand) < 2:
+                i += chunk
+                continue
+            runs += 1
+            try:
+                t2 = execute_tour(meta["campaign"], cand, meta["conc_seed"], common.scratch(), descs)
+                _, v = validate([t2], workers=2)
+                ok = any(c[1] == clause for c in v[1][1])
+            except Exception:  # noqa: BLE001
+                ok = False
+            if ok:
+                labs = cand
+                shrunk = True
+            else:
+                i += chunk
+        if not shrunk or chunk == 1:
+            chunk //= 2
+    return labs
+
+
 def report(run, traces, verdicts, prop):
     others = {}
     for tid, (upto, cl) in verdicts.items():
@@ -210,7 +245,16 @@ def report(run, traces, verdicts, prop):
             what = (f"{mine[0][1]} at step {step} of a {len(tr['steps'])}-step history "
                     f"(campaign {tr['meta']['campaign']}, op {ev['op']} type {ev['t']}, raised={not ev['res']['ok']}); "
                     f"all clauses of this trace: {sorted(set(c[1] for c in cl))}")
-            run.violation(what, dict(kind="container", campaign=tr["meta"]["campaign"], labels=tr["meta"]["labels"],
+            small = None
+            if not run.violations:   # shrink the first rejected history of a run
+                try:
+                    small = minimise(tr, mine[0][1])
+                except Exception:  # noqa: BLE001
+                    small = None
+            if small and len(small) < len(tr["meta"]["labels"]):
+                what += f"; minimised to {len(small) - 1} calls: {small[1:][:8]}"
+            run.violation(what, dict(kind="container", campaign=tr["meta"]["campaign"], labels=small or tr["meta"]["labels"],
+                                     original_labels=tr["meta"]["labels"],
                                      conc_seed=tr["meta"]["conc_seed"], clauses=cl, failing_step=step,
                                      event={k: v for k, v in ev.items() if k != "obs"}, obs=ev["obs"]))
     if others:
